@@ -99,6 +99,12 @@ func (s *gkvp) SerializeValueTo(pc *PrintCtx) {
 
 func (s Attrs) SerializeValueTo(pc *PrintCtx) {
 	// see gkvp.SerializeValueTo
+	if pc.jsonMode { // the members of a group form a nested object
+		pc.pcAppendByte('{')
+		_ = serializeAttrsSep(pc, slices.Clone(s), false)
+		pc.pcAppendByte('}')
+		return
+	}
 	_ = serializeAttrs(pc, slices.Clone(s))
 }
 
@@ -127,7 +133,11 @@ func dedupeSlice[S ~[]E, E any](x S, cmp func(a, b E) bool) S {
 //
 // The caller can do something with the object, For instance, printImpl
 // will dump the error's stack trace if necessary.
-func serializeAttrs(pc *PrintCtx, kvps Attrs) (err error) { //nolint:revive
+func serializeAttrs(pc *PrintCtx, kvps Attrs) (err error) { return serializeAttrsSep(pc, kvps, true) }
+
+// serializeAttrsSep is serializeAttrs; leadingSep tells whether the first
+// member needs a separator in front of it.
+func serializeAttrsSep(pc *PrintCtx, kvps Attrs, leadingSep bool) (err error) { //nolint:revive
 	prefix := pc.prefix
 
 	if pc.dedupeAttrs {
@@ -171,7 +181,10 @@ func serializeAttrs(pc *PrintCtx, kvps Attrs) (err error) { //nolint:revive
 		}
 
 		if pc.noColor {
-			pc.pcAppendComma()
+			if leadingSep {
+				pc.pcAppendComma()
+			}
+			leadingSep = true
 		} else {
 			pc.pcAppendByte(' ')
 			ct.echoColorAndBg(pc, pc.clr, pc.bg)
